@@ -40,6 +40,23 @@ fn classify(lib: &LefLibrary, ctx: &mut Ctx) {
     c(lib.macros.iter().any(|m| !m.obs.is_empty()), "has OBS", ctx);
     c(lib.units.as_ref().map(|u| u.database_microns.is_some()).unwrap_or(false), "DATABASE MICRONS", ctx);
     c(lib.macros.iter().any(|m| m.obs.iter().chain(m.pins.iter().flat_map(|p| p.ports.iter().flat_map(|q| q.layers.iter()))).any(|l| l.geometries.iter().any(|g| matches!(g, LefGeometry::Iterate { .. })))), "ITERATE geometry", ctx);
+    // which optional statements occur at all (from the value's Debug rendering: `field: Some(`)
+    {
+        let dbg = format!("{:?}", lib);
+        for f in [
+            "names_case_sensitive", "no_wire_extension_at_pin", "bus_bit_chars", "divider_char", "clearance_measure", "manufacturing_grid", "use_min_spacing", "foreign", "origin", "size", "symmetry", "site", "source", "eeq", "fixed_mask", "orient", "direction", "use_",
+            "shape", "antenna_model", "taper_rule", "supply_sensitivity", "ground_sensitivity", "must_join", "net_expr", "except_pg_net", "spacing", "width", "resistance_ohms", "rowcol", "offset", "pattern", "time_ns", "capacitance_pf", "power_mw", "current_ma", "voltage_volts", "frequency_mhz", "mask",
+        ] {
+            if dbg.contains(&format!("{}: Some(", f)) {
+                ctx.label(&format!("field present: {}", f));
+            }
+        }
+        for w in ["Generated(", "Fixed(", "Polygon(", "Path(", "Rect(", "Iterate", "Cover", "Ring", "Block", "Pad", "Core", "EndCap", "Tristate", "Feedthru", "Abutment"] {
+            if dbg.contains(w) {
+                ctx.label(&format!("value present: {}", w.trim_end_matches('(')));
+            }
+        }
+    }
     if let Some(v) = &lib.version {
         ctx.label(&format!("VERSION {}", v));
     } else {
